@@ -149,6 +149,44 @@ func tree(root string) ([]snap.Entry, error) {
 	return res, err
 }
 
+// Object IDs of the universe are partitioned between the containers (FSTree
+// combined files – also written by the write-cache batch flush – index their
+// members by object ID only, HARNESS.md pitfall), and inside a container the
+// IDs used for children and for parents are disjoint: real object IDs are
+// hashes over headers that embed the parent header, so neither "same ID in two
+// containers" nor "A child of B and B child of A" can be produced by real
+// callers (the metabase recurses over cyclic relations without bound).
+var (
+	kidIDs = [uni.NContainers][]int{{0, 3, 6}, {1, 4, 7}, {2, 5}}
+	parIDs = [uni.NContainers][]int{{9}, {10}, {8, 11}}
+	ownIDs = [uni.NContainers][]int{{0, 3, 6, 9}, {1, 4, 7, 10}, {2, 5, 8, 11}}
+)
+
+func normalize(s uni.Spec) uni.Spec {
+	c := s.Cnr
+	if s.Parent >= 0 {
+		s.ID = kidIDs[c][s.ID%len(kidIDs[c])]
+		s.Parent = parIDs[c][s.Parent%len(parIDs[c])]
+		if s.First >= 0 {
+			s.First = kidIDs[c][s.First%len(kidIDs[c])]
+		}
+		return s
+	}
+	s.ID = ownIDs[c][s.ID%len(ownIDs[c])]
+	if s.Kind == uni.Tombstone || s.Kind == uni.Lock {
+		s.Target = ownIDs[c][s.Target%len(ownIDs[c])]
+		if s.Target == s.ID {
+			for _, i := range ownIDs[c] {
+				if i != s.ID {
+					s.Target = i
+					break
+				}
+			}
+		}
+	}
+	return s
+}
+
 func idList(is []int) []oid.ID {
 	r := make([]oid.ID, len(is))
 	for k, i := range is {
@@ -262,6 +300,7 @@ func runCase(t *rapid.T, rec *ev.Recorder) {
 	// address re-puts the identical object (as replication does).
 	first := map[[2]int]uni.Spec{}
 	canon := func(s uni.Spec) uni.Spec {
+		s = normalize(s)
 		k := [2]int{s.Cnr, s.ID}
 		if old, ok := first[k]; ok {
 			return old
@@ -269,18 +308,13 @@ func runCase(t *rapid.T, rec *ev.Recorder) {
 		first[k] = s
 		return s
 	}
-	putOK := map[int]bool{}
 	put := func(s uni.Spec, withBin bool) error {
 		o := uni.Build(s)
 		var bin []byte
 		if withBin {
 			bin = o.Marshal()
 		}
-		err := sh.Put(o, bin)
-		if err == nil {
-			putOK[s.Cnr] = true
-		}
-		return err
+		return sh.Put(o, bin)
 	}
 
 	// ---------- phase 1: read-write history ----------
@@ -297,11 +331,6 @@ func runCase(t *rapid.T, rec *ev.Recorder) {
 			logf("rw mark c%d %v -> %v", c, ids, err != nil)
 		case k < 14:
 			c, ids := cnrGen.Draw(t, "c"), idsGen.Draw(t, "ids")
-			if !putOK[c] {
-				// Shard.Delete with write-cache panics for a container unknown to the
-				// metabase (reported separately; not a C14 matter)
-				continue
-			}
 			err := sh.Delete(uni.Cnr(c), idList(ids))
 			logf("rw delete c%d %v -> %v", c, ids, err != nil)
 		case k < 16:
@@ -403,7 +432,7 @@ func runCase(t *rapid.T, rec *ev.Recorder) {
 	// ---------- phase 2: requests, events, time ----------
 	var slept int
 	bgEvent := false
-	n2 := rapid.IntRange(8, 30).Draw(t, "n2")
+	n2 := rapid.IntRange(12, 32).Draw(t, "n2")
 	for i := 0; i < n2; i++ {
 		var step string
 		switch k := rapid.IntRange(0, 27).Draw(t, "p2"); {
